@@ -122,25 +122,19 @@ def run(ctx):
         from .. import hirx as H
         SWK = "rg::search::SearchWorker"
         f = facts.fn(SWK + "::search")
-        tail = H.tail_expr(f.hir)
-        envs = H.LetEnv(f.hir)
-        atoms = ["haystack.is_stdin()", "self.should_preprocess(path)", "self.should_decompress(path)"]
-        got = H.decision_atoms(tail, envs)
-        if set(got) != set(atoms):
-            r.bad("select|atoms", "input routing depends on %s" % got, fn=f)
-        else:
-            for bits in itertools.product([False, True], repeat=3):
-                v = dict(zip(atoms, bits))
-                leaf = H.decide(tail, v, envs)
-                want = "search_reader" if v[atoms[0]] else ("search_preprocessor" if v[atoms[1]] else
-                                                           ("search_decompress" if v[atoms[2]] else "search_path"))
-                key = "select|stdin=%d,pre=%d,zip=%d" % bits
-                if ("self.%s(" % want) in leaf and (want != "search_reader" or "stdin" in leaf):
-                    r.ok(key, "→ %s" % want, fn=f)
-                else:
-                    r.bad(key, "for stdin=%s pre=%s zip=%s the worker runs `%s` (specified %s): standard input must go through the "
-                          "incremental reader — it may be a pipe or a descriptor with a non-zero offset" % (bits + (leaf[:60], want)),
-                          fn=f, construct="select")
+        from . import c18
+        f, targets, rows = c18.worker_select_rows(facts)
+        if not all(targets.values()):
+            r.bad("select|atoms", "anchor-missing: SearchWorker::search no longer calls %s" % sorted(n for n, c in targets.items() if not c), fn=f)
+        for bits, ran in rows:
+            want = "search_reader" if bits[0] else ("search_preprocessor" if bits[1] else ("search_decompress" if bits[2] else "search_path"))
+            key = "select|stdin=%d,pre=%d,zip=%d" % bits
+            if ran == [want]:
+                r.ok(key, "→ %s" % want, fn=f)
+            else:
+                r.bad(key, "for stdin=%s pre=%s zip=%s the worker runs `%s` (specified %s): standard input must go through the "
+                      "incremental reader — it may be a pipe or a descriptor with a non-zero offset"
+                      % (bool(bits[0]), bool(bits[1]), bool(bits[2]), "/".join(ran) or "nothing", want), fn=f, construct="select")
         S_ = "grep_searcher::searcher::Searcher"
         for free, entry in (("rg::search::search_path", S_ + "::search_path"), ("rg::search::search_reader", S_ + "::search_reader")):
             g = facts.fn(free)
